@@ -1442,6 +1442,103 @@ def compare_notify(ctx, case, obs, idx, mres):
             return
 
 
+# ============================================================================= two operations in flight on one Client
+def inflight_cases():
+    """read_value / read_characteristics_by_uuid / write_value issued together with request_mtu
+    (ATT_MTU 23 -> 64/100/247/517) on one Client: the requests queue on the client's request
+    semaphore, so the MTU exchange is served before, or between, the requests of the other
+    operation.  Value lengths around the old and the new boundaries."""
+    cases = []
+    for new in (100, 64, 247, 517):
+        lens = sorted({21, 22, 23, 60, new - 2, new - 1, new, new + 1, 2 * (new - 1), 2 * (new - 1) + 1, 512})
+        for order in ('mtu-first', 'op-first'):
+            for vlen in lens:
+                if 0 <= vlen <= 512:
+                    cases.append({'kind': 'inflight', 'op': 'read', 'order': order, 'new_mtu': new, 'vlen': vlen})
+    for new in (100, 517):
+        for order in ('mtu-first', 'op-first'):
+            for vlen in (10, 19, 20, new - 4, new - 3, 300):
+                if vlen <= 512:
+                    cases.append({'kind': 'inflight', 'op': 'read_by_uuid', 'order': order, 'new_mtu': new, 'vlen': vlen})
+            for vlen in sorted({20, 21, min(512, new - 3), min(512, new - 2), min(512, 2 * new), 512}):
+                cases.append({'kind': 'inflight', 'op': 'write', 'order': order, 'new_mtu': new, 'vlen': vlen})
+    return cases
+
+
+async def run_inflight_impl(case):
+    from bumble.gatt import Service, Characteristic
+    from bumble.att import Attribute
+    w = World(1)
+    w.server.max_mtu = 517
+    val = value_bytes(case['vlen'], 6)
+    old = value_bytes(7, 1)
+    u = mk_uuid([16, 0x2A6E])
+    ch = Characteristic(u, Characteristic.Properties(0x0A), Attribute.READABLE | Attribute.WRITEABLE,
+                        old if case['op'] == 'write' else val)
+    w.server.add_service(Service(mk_uuid([16, 0x181A]), [ch]))
+    c = w.clients[0]
+    if case['op'] == 'read':
+        op = c.read_value(ch.handle)
+    elif case['op'] == 'read_by_uuid':
+        op = c.read_characteristics_by_uuid(u, None)
+    else:
+        op = c.write_value(ch.handle, val, with_response=True)
+    mtu = c.request_mtu(case['new_mtu'])
+
+    async def both():
+        if case['order'] == 'mtu-first':
+            r = await asyncio.gather(mtu, op, return_exceptions=True)
+            return r[0], r[1]
+        r = await asyncio.gather(op, mtu, return_exceptions=True)
+        return r[1], r[0]
+    kind, res = await bounded(both())
+    await idle()
+    obs = {'kind': kind, 'opcodes': [p[0] for p in w.cconns[0].sent], 'mtus': [w.cconns[0].att_mtu, w.sconns[0].att_mtu]}
+    if kind == 'ok':
+        m, r = res
+        obs['mtu_result'] = m if isinstance(m, int) else ['exc', exc_code(m)]
+        if isinstance(r, BaseException):
+            obs['result'] = ['exc', exc_code(r)]
+        elif case['op'] == 'read':
+            obs['result'] = ['ok', bytes(r).hex()]
+        elif case['op'] == 'read_by_uuid':
+            obs['result'] = ['ok', [bytes(x).hex() for x in r]]
+        else:
+            k2, rb = await bounded(c.read_value(ch.handle))
+            obs['result'] = ['ok', bytes(ch.value).hex(), rb.hex() if k2 == 'ok' else [k2, rb]]
+    return obs
+
+
+def inflight_oracle(case, obs):
+    new = case['new_mtu']
+    val = value_bytes(case['vlen'], 6).hex()
+    sig = f'inflight:{case["op"]}:{case["order"]}'
+    what = (f'{case["op"]} of a {case["vlen"]}-byte value issued together with request_mtu({new}) ({case["order"]}; '
+            f'request opcodes {obs.get("opcodes")}): ')
+    if obs['kind'] != 'ok' or obs.get('mtu_result') != new or obs['mtus'] != [new, new]:
+        return [(sig, what + f'the pair did not complete with ATT_MTU {new} on both ends: {obs["kind"]} {obs.get("mtu_result")} {obs["mtus"]}')]
+    r = obs['result']
+    if case['op'] == 'read':
+        if r != ['ok', val]:
+            n = len(r[1]) // 2 if r[0] == 'ok' else r[1]
+            return [(sig, what + f'read_value returned {n} bytes ({r[0]}), the value has {case["vlen"]}')]
+    elif case['op'] == 'read_by_uuid':
+        m = new if case['order'] == 'mtu-first' else 23
+        want = [val[:2 * min(m - 4, 253)]]
+        if r != ['ok', want]:
+            return [(sig, what + f'returned {r}, expected the first {min(m - 4, 253)} bytes of the value')]
+    else:
+        if r != ['ok', val, val]:
+            return [(sig, what + f'server holds {len(r[1]) // 2 if r[0] == "ok" else r} bytes, read back {str(r[2:])[:60]}')]
+    return []
+
+
+def inflight_model_expr(case):
+    m = f'(fun _ => {case["new_mtu"]})' if case['order'] == 'mtu-first' else \
+        f'(fun k => if Nat.eqb k 0 then 23 else {case["new_mtu"]})'
+    return f'routcome_obs (read_from_server_dyn {case["vlen"] + 1}%nat {m} {coq_value(case["vlen"], 6)})'
+
+
 # ============================================================================= fan-out independence (one bearer faults)
 def fanout_cases(transport, nmax):
     """Every position of ONE faulty bearer in the subscription order, 2..nmax subscribed bearers,
@@ -1825,7 +1922,9 @@ def builtin_corpus():
         {'uuid': [128, (0x3A657F47D34F46B3 << 64) | 0xB1EC698E29B6B829], 'primary': True, 'implicit': False, 'incl': [0],
          'chars': [{'uuid': [16, 0x2A00], 'props': 0x12, 'vlen': 30, 'salt': 2, 'descs': []}]},
         {'uuid': [16, 0x1801], 'primary': True, 'implicit': False, 'incl': [], 'chars': []}]})
-    # D12e (known): an included service with a 128-bit UUID
+    # D12f: the ATT_MTU grows between a Read Request and its Read Blob continuation
+    c.append({'kind': 'inflight', 'op': 'read', 'order': 'op-first', 'new_mtu': 100, 'vlen': 60})
+    # D12e: an included service with a 128-bit UUID
     c.append({'kind': 'db', 'server_mtu': 23, 'client_mtu': None, 'writes': [], 'services': [
         {'uuid': [128, (0x97210A0F18754D05 << 64) | 0x9E5D326EB171257A], 'primary': True, 'implicit': False, 'incl': [],
          'chars': []},
@@ -1858,6 +1957,8 @@ def run_impl(case):
         return asyncio.run(run_advread_impl(case))
     if case['kind'] == 'fanout':
         return asyncio.run(run_fanout_impl(case))
+    if case['kind'] == 'inflight':
+        return asyncio.run(run_inflight_impl(case))
     if case['kind'] == 'link':
         return asyncio.run(run_link_impl(case))
     raise ValueError(case['kind'])
@@ -1891,6 +1992,9 @@ def judge(ctx, case, obs):
             ctx.violation(sig, text, case)
     elif k == 'fanout':
         for sig, text in fanout_oracle(case, obs):
+            ctx.violation(sig, text, case)
+    elif k == 'inflight':
+        for sig, text in inflight_oracle(case, obs):
             ctx.violation(sig, text, case)
     elif k == 'advread':
         # a read ends: offsets strictly increase (so at most 0xFFFF/(MTU-1)+1 Read Blob requests fit
@@ -1934,6 +2038,7 @@ def run(ctx):
         cases.append(gen_adv_case(rng))
     for _ in range(ctx.n(80, 2000)):
         cases.append(gen_notify_case(rng))
+    cases.extend(inflight_cases()[:ctx.n(160, 400)])
     cases.extend(fanout_cases('mem', 4))
     cases.extend(fanout_cases('link', 4)[:ctx.n(9, 40)])
     for k in range(ctx.n(24, 600)):
@@ -1985,6 +2090,9 @@ def run(ctx):
         elif case['kind'] == 'advread':
             exprs.append(advread_model_expr(case))
             owners.append((i, 'advread', None))
+        elif case['kind'] == 'inflight' and case['op'] == 'read':
+            exprs.append(inflight_model_expr(case))
+            owners.append((i, 'inflight', None))
         elif case['kind'] == 'fanout' and obs.get('setup') == 'ok':
             exprs.append(fanout_model_expr(case))
             owners.append((i, 'fanout', None))
@@ -2026,6 +2134,9 @@ def run(ctx):
         elif kind == 'read':
             nontrivial = obs['requests'] >= 2
             ctx.count('read.requests', obs['requests'])
+        elif kind == 'inflight':
+            nontrivial = len(obs.get('opcodes', [])) >= 3
+            ctx.count('inflight.' + case['op'] + '.' + case['order'])
         elif kind == 'fanout':
             nontrivial = obs.get('setup') == 'ok'
             ctx.count('fanout.' + case['transport'] + '.' + case['mode'] + ('.ind' if case['indicate'] else '.ntf'))
@@ -2046,6 +2157,12 @@ def run(ctx):
                 compare_adv(ctx, case, obs, m)
             elif k2 == 'notify':
                 compare_notify(ctx, case, obs, extra, m)
+            elif k2 == 'inflight':
+                code, v = m
+                mv = ['ok', bytes(v).hex()] if code == 0 else ['exc', v]
+                if mv != obs.get('result'):
+                    ctx.disagree('read while the ATT_MTU changes', case, [mv[0], len(mv[1]) // 2 if code == 0 else mv[1]],
+                                 [obs.get('result', [None])[0], len(obs['result'][1]) // 2 if obs.get('result', [0])[0] == 'ok' else obs.get('result')])
             elif k2 == 'fanout':
                 mp = [[] for _ in range(case['clients'])]
                 for b, v in m:
@@ -2071,7 +2188,7 @@ def search(ctx):
     """Directed search after a broken proof obligation (a theorem, the shape obligation of the
     translator) or a broken correspondence: the corpus, the value length x MTU grid with boundary
     MTUs, and a larger generated campaign, on the implementation only (property oracle)."""
-    for case in load_corpus() + fanout_cases('mem', 4) + fanout_cases('link', 4):
+    for case in load_corpus() + inflight_cases() + fanout_cases('mem', 4) + fanout_cases('link', 4):
         judge(ctx, case, run_impl(case))
     if ctx.violations:
         return
